@@ -11,6 +11,12 @@ use serde_json::{json, Value};
 
 pub const VERIF_DIR: &str = "/verif";
 
+/// Where evidence and replay files go: /verif, or $VERIF_OUT when a scratch tree is being checked
+/// (tools/run_on_tree.sh), so that a run against a modified copy never overwrites real evidence.
+pub fn out_dir() -> String {
+    std::env::var("VERIF_OUT").unwrap_or_else(|_| VERIF_DIR.to_string())
+}
+
 #[derive(Clone, Copy, PartialEq, Eq, Debug)]
 pub enum Tier {
     Quick,
@@ -233,7 +239,7 @@ impl Ctx {
                 new_sites += 1;
                 let fname = format!(
                     "{}/replays/{}-{}.json",
-                    VERIF_DIR,
+                    out_dir(),
                     self.id,
                     sanitize(site)
                 );
@@ -246,7 +252,7 @@ impl Ctx {
                     "n_cases": vs.len(),
                     "replay_cmd": format!("./check {} --replay {}", self.id, fname),
                 });
-                let _ = std::fs::create_dir_all(format!("{}/replays", VERIF_DIR));
+                let _ = std::fs::create_dir_all(format!("{}/replays", out_dir()));
                 let _ = std::fs::write(&fname, serde_json::to_string_pretty(&body).unwrap());
                 if new_sites <= 25 {
                     out_lines.push(format!(
@@ -303,8 +309,8 @@ impl Ctx {
             "machinery_errors": machinery,
         });
         if !self.replaying() {
-            let _ = std::fs::create_dir_all(format!("{}/evidence", VERIF_DIR));
-            let path = format!("{}/evidence/{}.json", VERIF_DIR, self.id);
+            let _ = std::fs::create_dir_all(format!("{}/evidence", out_dir()));
+            let path = format!("{}/evidence/{}.json", out_dir(), self.id);
             if let Err(e) = std::fs::write(&path, serde_json::to_string_pretty(&ev).unwrap()) {
                 eprintln!("cannot write evidence {path}: {e}");
                 return 2;
